@@ -14,13 +14,13 @@ Ev == T[l]
 (* the getters of the real object agree with the contract; a disagreement is printed (diagnostics only) *)
 ViewOK(n, o) == LET v == View(n)
                     bad == {f \in DOMAIN v \ Unjudged(n) : f \notin DOMAIN o \/ o[f] # v[f]}
-                IN bad = {} \/ (PrintT(<<"MISMATCH", l, bad>>) /\ FALSE)
+                IN IF bad = {} THEN TRUE ELSE PrintT(<<"MISMATCH", l, bad>>) /\ FALSE
 
 TInit == s = [m |-> "none"] /\ l = 1 /\ InitProgress
 TReset == /\ l <= Len(T) /\ Ev.e = "Reset" /\ Ev.m \in Machines
           /\ s' = InitOf(Ev.m) /\ ViewOK(InitOf(Ev.m), Ev.o) /\ l' = l + 1
 TCall == /\ l <= Len(T) /\ Ev.e # "Reset" /\ s.m # "none"
-         /\ (Ev.e \in EventsOf(s.m) /\ Pre(s, Ev)) \/ (PrintT(<<"HARNESS", l>>) /\ FALSE)      \* malformed call: broken check, not a finding
+         /\ IF Ev.e \in EventsOf(s.m) /\ Pre(s, Ev) THEN TRUE ELSE PrintT(<<"HARNESS", l>>) /\ FALSE      \* malformed call: broken check, not a finding
          /\ LET n == Apply(s, Ev) IN s' = n /\ ViewOK(n, Ev.o)
          /\ l' = l + 1
 TNext == TReset \/ TCall
